@@ -373,7 +373,7 @@ const maxReplayAlloc = 1 << 22
 func replayObligation(e *Engine, o *Obligation, scratch string) map[string]interface{} {
 	res := map[string]interface{}{"confirmed": false}
 	pkgDir, harness, ok := harnessFor(o.Proc)
-	if ok && (harness == "reader" || harness == "writer" || harness == "xxh" || harness == "creader") {
+	if ok && (harness == "reader" || harness == "writer" || harness == "xxh" || harness == "creader" || harness == "options") {
 		// frame level: search driven by the obligation's subject (heap models are not API-reachable states)
 		focus := strings.ToLower(o.Name)
 		out, failed := runFrameHarness(pkgDir, harness, focus, scratch)
@@ -477,6 +477,9 @@ func harnessFor(proc string) (pkgDir, harness string, ok bool) {
 	}
 	if strings.HasPrefix(proc, "lz4.CompressingReader.") || strings.HasPrefix(proc, "lz4.ovWriter.") || proc == "lz4.NewCompressingReader" {
 		return repoDir, "creader", true
+	}
+	if strings.HasPrefix(proc, "lz4.") && strings.Contains(proc, "Option$") {
+		return repoDir, "options", true
 	}
 	readerFuncs := []string{"lz4stream.Frame.ParseHeaders", "lz4stream.Frame.readUint32", "lz4stream.FrameDescriptor.initR", "lz4stream.FrameDataBlock.Read",
 		"lz4stream.FrameDataBlock.Uncompress", "lz4stream.Frame.CloseR", "lz4stream.Blocks.initR", "lz4.Reader.", "lz4.ValidFrameHeader"}
